@@ -86,6 +86,20 @@ class TreeGen:
 
     def kron_tree(self, depth):
         # ('kron', A, B) with 2x2 factors composed so that the result is n x n when n == 4; otherwise scalar factors
+        if self.n == 8 or (self.n == 4 and self.rng.random() < 0.4):
+            # n-ary kron: three (or more) arguments, non-commuting factors of unequal shapes
+            if self.n == 8:
+                ms = [self.rmat(2), self.rmat(2), self.rmat(2)]
+            else:
+                ms = [self.rmat(2), self.rmat(2)]
+                ms.insert(self.rng.randrange(3), self.rmat(1))
+            objs, js = [], []
+            for q, m in enumerate(ms):
+                o = np.array(m) if (q + self.rng.randrange(2)) % 2 == 0 else jnp.array(m)
+                self.leaves.append((o, copy.deepcopy(np.asarray(o))))
+                objs.append(o)
+                js.append(jmat(m))
+            return ("kron", *objs), {"node": "kron", "args": js}
         if self.n == 4:
             a, b = self.rmat(2), self.rmat(2)
             oa, ob = np.array(a), jnp.array(b)
@@ -127,7 +141,7 @@ def run(prop, tier, seed):
     samples = []
     N = 3000 if thorough else 400
     for k in range(N):
-        g = TreeGen(rng, rng.choice([2, 3, 4]))
+        g = TreeGen(rng, rng.choice([2, 3, 4, 4, 8]))
         depth = rng.choice([1, 2, 2, 3, 4]) if not thorough else rng.choice([1, 2, 3, 4, 5])
         expr, j, ctx = g.make(depth)
         ctxj = {name: jmat(v) for name, v in g.ctx_vals.items()}
